@@ -100,3 +100,42 @@ Lemma close_releases g q : g_waiting g = Some q ->
   let g1 := fst (g_step g GClose) in
   snd (g_step g1 GPoll) = [GDropped q] /\ g_waiting (fst (g_step g1 GPoll)) = None.
 Proof. intros W. cbn. rewrite W. rewrite orb_true_r. cbn. auto. Qed.
+
+(* --- the order on cluster-map revisions --- *)
+Local Open Scope Z_scope.
+
+Definition lex_lt (a b : Z * Z) : Prop := fst a < fst b \/ (fst a = fst b /\ snd a < snd b).
+
+Lemma config_newer_lex : forall old new, config_newer old new = true <-> lex_lt old new.
+Proof.
+  intros [oe orv] [ne nr]. unfold config_newer, lex_lt. cbn [fst snd].
+  destruct (Z.ltb_spec ne oe) as [L1|L1].
+  - split; [discriminate|]. intros [H|[H _]]; lia.
+  - destruct (Z.eqb_spec ne oe) as [E|E].
+    + destruct (Z.eqb_spec nr orv) as [E2|E2].
+      * split; [discriminate|]. intros [H|[_ H]]; lia.
+      * destruct (Z.ltb_spec nr orv) as [L2|L2].
+        -- split; [discriminate|]. intros [H|[_ H]]; lia.
+        -- split; [intros _; right; lia|reflexivity].
+    + split; [intros _; left; lia|reflexivity].
+Qed.
+
+Lemma config_newer_irrefl : forall a, config_newer a a = false.
+Proof.
+  intros a. destruct (config_newer a a) eqn:E; [|reflexivity].
+  apply config_newer_lex in E. destruct E as [H|[_ H]]; lia.
+Qed.
+
+Lemma config_newer_trans : forall a b c, config_newer a b = true -> config_newer b c = true -> config_newer a c = true.
+Proof.
+  intros a b c H1 H2. apply config_newer_lex in H1. apply config_newer_lex in H2. apply config_newer_lex.
+  unfold lex_lt in *. lia.
+Qed.
+
+Lemma config_newer_total : forall a b, a <> b -> config_newer a b = true \/ config_newer b a = true.
+Proof.
+  intros [a1 a2] [b1 b2] N. rewrite !config_newer_lex. unfold lex_lt. cbn [fst snd].
+  destruct (Z.lt_trichotomy a1 b1) as [L|[E|L]]; [left; left; exact L| |right; left; exact L].
+  destruct (Z.lt_trichotomy a2 b2) as [L|[E2|L]]; [left; right; split; assumption| |right; right; split; [symmetry|]; assumption].
+  exfalso. apply N. subst. reflexivity.
+Qed.
